@@ -43,6 +43,7 @@ def run(S):
     counterparty_commitment_claims(S, D)
     holder_commitment_claims(S, D)
     late_preimage_claims(S, D)
+    monitor_role_wiring(S, D)
 
 
 def estimator(E):
@@ -625,3 +626,106 @@ def late_preimage_claims(S, D):
     S.no_panic(ids[1], E, [], 'total', [b])
     S.witness(ids[2], E, [live], n_out == 2)
     S.validate(ids[3], E, b, n=1, extra_vectors=[(1,)])
+
+
+def own_csv_binding(claim):
+    """replay (oracle_tu own_csv_battery): two live nodes that impose DIFFERENT to_self_delays on each other; node 0 closes
+    with its own commitment; its delayed balance must be announced for, and mature into a SpendableOutputs event after,
+    the delay its PEER chose (descriptor.to_self_delay likewise); four delay pairs; output = number of bad scenarios"""
+    c = claim if z3.is_expr(claim) else X.zbool(claim)
+    return Binding('own_csv_battery', [z3.IntVal(0)], [z3.If(c, 0, 1)], parse=lambda t: [0 if t[0] == '0' else 1], line_fn=lambda v: '0',
+                   which='oracle_tu', via_solver=True, domain=[(0, 0)], panic=False)
+
+
+def monitor_role_wiring(S, D):
+    """C07.j: `ChannelMonitor::new` - whose parameter ends up in which role. The CSV delay on OUR outputs of OUR commitment
+    (to_local, second-stage HTLC outputs: `on_holder_tx_csv`, from which the monitor builds the script it recognises them
+    by, the maturity height of the balances and the descriptor the signer gets) is the delay the COUNTERPARTY selected; the
+    delay on the counterparty's outputs (`on_counterparty_tx_csv`, used for justice claims) is the one handed in by the
+    channel (ours); the counterparty's delayed-payment / HTLC base keys and our revocation base key go where their names
+    say. Whole function from its MIR; keys / scripts / maps / the claim handler are opaque stubs, `from_impl` records."""
+    ids = ['C07.j.own_outputs_wait_for_peers_delay', 'C07.j.roles', 'C07.j.nopanic', 'C07.j.witness']
+    if all(S._skip(o) for o in ids):
+        return
+    f = S.fn('new', contains='channelmonitor.rs', nargs=13)
+    E = S.engine(unwind=2)
+    mem = {}
+    got = []
+
+    def h_from_impl(E_, m, func, argv, guard, mem_, dty, caller):
+        got.append((X.zbool(guard), argv[0]))
+        return X.Opaque('monitor')
+    opaque = lambda what: (lambda *a: X.Opaque(what))
+    for rx, h in [
+        (r'ChannelMonitor::<.*>::from_impl$', h_from_impl),
+        (r'new_hash_(?:map|set)::<', opaque('empty table')),
+        (r'HashMap::<.*>::insert$', opaque('inserted')),
+        (r'OnchainTxHandler::<.*>::new$', opaque('claim handler')),
+        (r'get_countersigner_payment_script$', opaque('script')),
+        (r'make_funding_redeemscript$', opaque('script')),
+        (r'Script::to_p2wsh$', opaque('script')),
+        (r'ScriptBuf as (?:std::ops::)?Deref>::deref$', opaque('script')),
+        (r'ScriptBuf as Clone>::clone$', opaque('script')),
+        (r'Script as Into<(?:bitcoin::)?ScriptBuf>>::into$', opaque('script')),
+        (r'CounterpartyCommitmentSecrets::new$', opaque('secrets')),
+        (r'CommitmentHTLCData::new$', opaque('htlc data')),
+        (r'ChannelSigner>::channel_keys_id$', opaque('keys id')),
+        (r'HolderCommitmentTransaction as Clone>::clone$', opaque('holder tx')),
+        (r'HolderCommitmentTransaction as (?:std::ops::)?Deref>::deref$', opaque('commitment tx')),
+        (r'CommitmentTransaction::trust$', opaque('trusted tx')),
+        (r'TrustedCommitmentTransaction<.*> as (?:std::ops::)?Deref>::deref$', opaque('commitment tx')),
+        (r'CommitmentTransaction::commitment_number$', lambda *a: E.sym('holder_commitment_number', 'u64')),
+        (r'ChannelTransactionParameters as Clone>::clone$', opaque('parameters copy')),
+    ]:
+        E.models.insert(0, (re.compile(rx), h))
+    params = E.sym('params', '&chan_utils::ChannelTransactionParameters', mem)
+    csv_in = E.sym('on_counterparty_tx_csv', 'u16')
+    obscure = E.sym('obscure', 'u64')
+    args = [X.Opaque('secp'), X.Opaque('signer'), X.Opaque('shutdown script'), csv_in, X.Opaque('dest script'), params, E.sym('outbound', 'bool'), obscure,
+            X.Opaque('holder tx'), X.Opaque('best block'), X.Opaque('node id'), X.Opaque('channel id'), E.sym('manual', 'bool')]
+    S.call(E, f, args, mem)
+    if len(got) != 1:
+        raise X.Unsupported('ChannelMonitor::new: %d from_impl calls' % len(got))
+    g_built, imp = got[0]
+    MI = D.struct_fields('ChannelMonitorImpl')
+    CP = D.struct_fields('ChannelTransactionParameters')
+    CC = D.struct_fields('CounterpartyChannelTransactionParameters')
+    PK = D.struct_fields('ChannelPublicKeys')
+    CCP = D.struct_fields('CounterpartyCommitmentParameters')
+    rd = lambda v, fields, nm, ty: E.read_path(v, (('f', fields.index(nm), ty),), mem, True, 'spec')
+    pv = mem[params.cell]
+    cpo = rd(pv, CP, 'counterparty_parameters', 'Option<chan_utils::CounterpartyChannelTransactionParameters>')
+    cp = E.en_payload(cpo, 'Some', 1, 0, 'chan_utils::CounterpartyChannelTransactionParameters', mem, 'spec')
+    fo = rd(pv, CP, 'funding_outpoint', 'Option<chain::transaction::OutPoint>')
+    pre = [X.zint(cpo.d) == 1, X.zint(fo.d) == 1, obscure.t <= (1 << 48)]
+    peers_delay = rd(cp, CC, 'selected_contest_delay', 'u16').t
+    our_delay = rd(pv, CP, 'holder_selected_contest_delay', 'u16').t
+    own_csv = rd(imp, MI, 'on_holder_tx_csv', 'u16').t
+    ccp = rd(imp, MI, 'counterparty_commitment_params', 'channelmonitor::CounterpartyCommitmentParameters')
+    their_csv = rd(ccp, CCP, 'on_counterparty_tx_csv', 'u16').t
+
+    def same(a, b):
+        """identity of two opaque / lazily symbolic values (keys): the same Python object or the same symbolic origin"""
+        if a is b:
+            return True
+        ba, bb = getattr(a, 'base', None), getattr(b, 'base', None)
+        return ba is not None and ba == bb and getattr(a, 'fs', {}) == getattr(b, 'fs', {})
+    cpk = rd(cp, CC, 'pubkeys', 'chan_utils::ChannelPublicKeys')
+    hpk = rd(pv, CP, 'holder_pubkeys', 'chan_utils::ChannelPublicKeys')
+    keys_ok = all([
+        same(rd(ccp, CCP, 'counterparty_delayed_payment_base_key', 'DelayedPaymentBasepoint'), rd(cpk, PK, 'delayed_payment_basepoint', 'DelayedPaymentBasepoint')),
+        same(rd(ccp, CCP, 'counterparty_htlc_base_key', 'HtlcBasepoint'), rd(cpk, PK, 'htlc_basepoint', 'HtlcBasepoint')),
+        same(rd(imp, MI, 'holder_revocation_basepoint', 'RevocationBasepoint'), rd(hpk, PK, 'revocation_basepoint', 'RevocationBasepoint')),
+    ])
+    S.prove(ids[0], E, pre, z3.And(g_built, own_csv == peers_delay),
+            "the monitor of a new channel records, as the CSV delay on OUR outputs of OUR commitment transaction (on_holder_tx_csv: script recognition, balance maturity, spendable-output descriptors), the contest delay the COUNTERPARTY selected - not our own, which may differ",
+            [own_csv_binding(own_csv == peers_delay)], bounds='whole function; all u16 delays, both parties independent; keys, scripts, tables and the claim handler opaque',
+            assumptions=['counterparty parameters and funding outpoint known (the constructor unwraps both), obscure factor <= 2^48 (asserted by the constructor)'])
+    S.prove(ids[1], E, pre, z3.And(g_built, their_csv == csv_in.t, z3.BoolVal(keys_ok),
+                                   rd(imp, MI, 'latest_update_id', 'u64').t == 0,
+                                   rd(imp, MI, 'current_counterparty_commitment_number', 'u64').t == (1 << 48),
+                                   rd(imp, MI, 'commitment_transaction_number_obscure_factor', 'u64').t == obscure.t),
+            "the delay on the counterparty's outputs is the one the channel hands in; the counterparty's delayed-payment and HTLC base keys and our revocation base key are taken from the party their names say; update id 0, no counterparty commitment yet (2^48)",
+            [], bounds='as above; keys as identities')
+    S.no_panic(ids[2], E, pre, 'no panic under the constructor\'s own preconditions (the vec! literal\'s alignment / null checks included)', [])
+    S.witness(ids[3], E, pre + [peers_delay != our_delay], g_built)
